@@ -612,6 +612,7 @@ package pubsub
 //@   props C20 C13
 //@   option old section
 //@   option waitkind iter
+//@   option wait-calls (*Queue).waitForLink cursor == next
 //@   requires q != nil && !held(q.mu) && ctx != nil && (next != nil ==> next.guard == q.mu)
 //@   ensures !held(q.mu) && next != nil && next.guard == q.mu
 //@   ensures notfront: result1 == nil ==> next != q.front
